@@ -13,8 +13,44 @@ Lemma subst_table_is_v_table : subst_table = v_table.
 Proof. vm_compute. reflexivity. Qed.
 Lemma top_value_is_topval : top_value = topval.
 Proof. vm_compute. reflexivity. Qed.
-Lemma triplets_are_spec : bucket_triplets = spec_triplets.
-Proof. vm_compute. reflexivity. Qed.
+(* the six increment lines of the source are the reference's six (salt, triplet) pairs, IN ANY ORDER:
+   wrapping increments commute, so the order of the lines is immaterial (a reordering is a harmless rewrite) *)
+Definition triplet_eqb (a b : N * (N * N * N)) : bool :=
+  let '(s, (i, j, k)) := a in let '(s', (i', j', k')) := b in (s =? s') && (i =? i') && (j =? j') && (k =? k').
+Lemma triplet_eqb_eq a b : triplet_eqb a b = true -> a = b.
+Proof.
+  destruct a as [s [[i j] k]], b as [s' [[i' j'] k']]. cbn. intros H.
+  apply andb_prop in H as [H Hk]. apply andb_prop in H as [H Hj]. apply andb_prop in H as [Hs Hi].
+  apply N.eqb_eq in Hs, Hi, Hj, Hk. subst. reflexivity.
+Qed.
+Fixpoint remove_first (x : N * (N * N * N)) (l : list (N * (N * N * N))) : option (list (N * (N * N * N))) :=
+  match l with
+  | [] => None
+  | y :: r => if triplet_eqb x y then Some r else option_map (cons y) (remove_first x r)
+  end.
+Fixpoint perm_check (a b : list (N * (N * N * N))) : bool :=
+  match a with
+  | [] => match b with [] => true | _ => false end
+  | x :: r => match remove_first x b with Some b' => perm_check r b' | None => false end
+  end.
+Lemma remove_first_perm x : forall l l', remove_first x l = Some l' -> Permutation l (x :: l').
+Proof.
+  induction l as [|y r IH]; intros l' H; cbn in H; [discriminate|].
+  destruct (triplet_eqb x y) eqn:E.
+  - injection H as <-. apply triplet_eqb_eq in E. subst. apply Permutation_refl.
+  - destruct (remove_first x r) as [r'|]; [|discriminate]. injection H as <-.
+    apply perm_trans with (y :: x :: r'); [apply perm_skip; apply IH; reflexivity|apply perm_swap].
+Qed.
+Lemma perm_check_sound : forall a b, perm_check a b = true -> Permutation a b.
+Proof.
+  induction a as [|x r IH]; intros b H; cbn in H.
+  - destruct b; [apply perm_nil|discriminate].
+  - destruct (remove_first x b) as [b'|] eqn:E; [|discriminate].
+    apply Permutation_sym. apply perm_trans with (x :: b'); [apply remove_first_perm; exact E|].
+    apply perm_skip. apply Permutation_sym. apply IH. exact H.
+Qed.
+Lemma triplets_are_spec : Permutation bucket_triplets spec_triplets.
+Proof. apply perm_check_sound. vm_compute. reflexivity. Qed.
 Lemma checksum_args_are_spec : checksum_args = (4, 3).
 Proof. vm_compute. reflexivity. Qed.
 Lemma constants_are_spec :
@@ -59,10 +95,18 @@ Proof. destruct w as [[[[a b] c] d] e]. reflexivity. Qed.
 Definition mhits (gc : gcfg) (bk : buckets_kind) (w : window) : list N :=
   map (fun t => let '(salt, (i, j, k)) := t in bmap gc bk salt (wsel w i) (wsel w j) (wsel w k)) bucket_triplets.
 
-Lemma mhits_spec gc bk w : mhits gc bk w = hits bk w.
+Lemma mhits_spec gc bk w : Permutation (mhits gc bk w) (hits bk w).
 Proof.
-  unfold mhits, hits. rewrite triplets_are_spec. apply map_ext. intros [salt [[i j] k]].
-  rewrite bmap_spec, !wsel_wnth. reflexivity.
+  unfold mhits, hits.
+  rewrite (map_ext _ (fun t : N * (N * N * N) => let '(salt, (i, j, k)) := t in spec_bucket bk salt (wnth w i) (wnth w j) (wnth w k))).
+  - apply Permutation_map. exact triplets_are_spec.
+  - intros [salt [[i j] k]]. rewrite bmap_spec, !wsel_wnth. reflexivity.
+Qed.
+
+Lemma flat_map_perm {A} (f g : A -> list N) l : (forall x, Permutation (f x) (g x)) ->
+  Permutation (flat_map f l) (flat_map g l).
+Proof.
+  intros H. induction l as [|x l IH]; cbn [flat_map]; [apply perm_nil|]. apply Permutation_app; [apply H|exact IH].
 Qed.
 
 Lemma bucket_updates_p_fold gc bk trip w buckets :
@@ -224,9 +268,8 @@ Proof.
     replace n with (N.to_nat (N.of_nat n)) at 1 by lia.
     rewrite count_fold'; [| fold nb; lia | rewrite Larr; lia | unfold arr0; rewrite nth_repeat0; reflexivity ].
     unfold arr0. rewrite nth_repeat0. rewrite N.add_0_l. unfold spec_count, count_in, all_hits, two32.
-    unfold L. replace (flat_map (mhits gc (v_bk v)) (windows d)) with (flat_map (hits (v_bk v)) (windows d)).
-    + reflexivity.
-    + apply flat_map_ext. intros w. symmetry. apply mhits_spec.
+    unfold L. f_equal. f_equal.
+    apply (proj1 (Permutation_count_occ N.eq_dec _ _)). apply flat_map_perm. intros w. apply mhits_spec.
 Qed.
 
 Lemma checksum_p_spec gc v cks w : checksum_p gc v cks (wsel w 4) (wsel w 3) = spec_cks_step (v_bk v) cks w.
